@@ -17,6 +17,7 @@ from vf.gen.instance import InstGen
 from vf.gen.mutate import get_at, set_at
 from vf.gen.refs import ref_positions, transform_local
 from vf.gen.schema import SchemaGen, walk_subschemas
+from vf.gen.schema import VOCAB as VOCAB_D
 from vf.obs.fingerprint import fp, fps
 
 ID = "C10"
@@ -79,7 +80,7 @@ def shards(tier):
 def floors(tier):
     return {"cases": 20000, "insertions": 20000, "insertions_depth2plus": 1000, "would_fail_values": 8000,
             "next_to_ref": 1000, "base_uri_cases": 100, "own_id_next_to_ref": 100, "foreign_sibling_matrix_cases": 50000, "root_ref_cases": 500, "embedded_lookalike_cases": 2000, "empty_or_hash_ref_cases": 1000, "cases_with_errors": 5000, "foreign_names_used": 150,
-            "foreign_id_in_store_document_cases": 100, "check_schema_compared": 5000}
+            "foreign_id_in_store_document_cases": 100, "check_schema_compared": 5000, "many_foreign_member_cases": 100}
 
 
 # the member names the PUBLISHED metaschema of each draft says anything about (its `properties`): a keyword outside this
@@ -121,7 +122,11 @@ def errors_of(d, schema, inst, resolver=None):
         errs = list(v.iter_errors(inst))
         # ... and the one error jsonschema.validate() would raise (best_match): a reported error as well
         best = X.best_match(iter(errs))
-        return "ok", [fps(errs, message=False), None if best is None else fp(best, message=False)]
+        first = None
+        for e in v.iter_errors(inst):       # what validate() raises: the first error, in the order they are produced
+            first = fp(e, message=False)
+            break
+        return "ok", [fps(errs, message=False), None if best is None else fp(best, message=False), [fp(e, message=False) for e in errs], first]
     except X.RefResolutionError as e:
         return "RefResolutionError", None
     except X.UnknownType:
@@ -230,6 +235,9 @@ def compare(ctx, d, S, S2, log, inst, resolver_factory=None, mech=None):
     elif f0[1] != f1[1]:
         ctx.violation("best-match-changed", case, "same errors, but best_match (what validate() raises) is %r without and %r with the insertions" % (
             f0[1][:4], f1[1][:4]), mech=mech)
+    elif f0[2] != f1[2] or f0[3] != f1[3]:
+        ctx.violation("error-order-changed", case, "same errors, produced in another order (first: %r without, %r with the insertions; the members the "
+                      "schema already had keep their relative order)" % (f0[3] and f0[3][:4], f1[3] and f1[3][:4]), mech=mech)
     if f0 and f0[0] and any(e[4] for e in f0[0]):
         ctx.count("cases_with_context_errors")
     # a keyword the draft's metaschema does not mention is no business of check_schema / validate() either
@@ -300,6 +308,39 @@ def foreign_id_in_store_documents(ctx, d):
             if st0 != st1 or f0 != f1:
                 ctx.violation("errors-changed", case, "adding %r to a stored document changed the outcome: %r -> %r" % (
                     foreign, (st0, f0 and f0[0][:2]), (st1, f1 and f1[0][:2])))
+
+
+def many_foreign_members(ctx, d, rng, n=12):
+    """One schema object carrying more foreign members (40-70) than the draft has keywords."""
+    g = SchemaGen(rng, d, maxdepth=1)
+    for _ in range(n):
+        kws = rng.sample([k for k in VOCAB_D[d] if k not in ("$ref", "format")], 4)
+        S = {}
+        for k in kws:
+            S.update(g.keyword_schema(k))
+        items = list(S.items())
+        rng.shuffle(items)
+        S = dict(items)
+        names = ["x-vf-%d" % i for i in range(rng.randrange(40, 70))] + rng.sample(RANDOM_NAMES + LATER, 5)
+        S2 = S
+        log = []
+        where = rng.choice(["root", "nested"])
+        for nm in names:
+            if nm in S2:
+                continue
+            S2 = with_key(rng, S2, nm, V.value(rng, 1))
+            log.append({"path": [], "name": nm, "would_fail": False, "next_to_ref": False, "depth": 0})
+        if where == "nested":
+            S, S2 = {"items": S, "properties": {"a": S}}, {"items": S2, "properties": {"a": S2}}
+        try:
+            if not impl.accepts(d, S):
+                continue
+        except Exception:
+            continue
+        ig = InstGen(rng, S)
+        for inst in ig.batch(4):
+            ctx.count("many_foreign_member_cases")
+            compare(ctx, d, S, S2, log[:3] + [{"name": "... %d foreign members in all" % len(log), "would_fail": False}], inst)
 
 
 def embedded_lookalikes(ctx, d, rng):
@@ -407,6 +448,7 @@ def run(ctx):
             root_ref_cases(ctx, d, rr)
             embedded_lookalikes(ctx, d, rr)
             foreign_id_in_store_documents(ctx, d)
+            many_foreign_members(ctx, d, rr)
     idx = 0
     for d in impl.DRAFTS:
         idx = foreign_sibling_matrix(ctx, d, rr, used, idx)
